@@ -1,4 +1,5 @@
 import GffProofs.Props.C15
+import GffProofs.Props.C15Db
 open GffProofs.C15
 #print axioms interfeatures_exact
 #print axioms interfeatures_pairs
@@ -14,3 +15,30 @@ open GffProofs.C15
 #print axioms mergeAttributes_mem
 #print axioms sortedSet_mem
 #print axioms nfeatures_one
+open GffProofs.C15Db
+#print axioms transcripts_spec
+#print axioms transcripts_error_iff
+#print axioms transcripts_grandparent
+#print axioms transcripts_parent
+#print axioms transcripts_stored
+#print axioms exonsOf_spec
+#print axioms exonsOf_eq_of_sorted
+#print axioms exonsOf_starts_sorted
+#print axioms createIntrons_eq
+#print axioms introns_exact
+#print axioms introns_error_iff
+#print axioms intronsOf_geometry
+#print axioms introns_geometry
+#print axioms spliceType_spec
+#print axioms createSpliceSites_eq
+#print axioms splice_sites_exact
+#print axioms splice_sites_exact_of_exon_ids
+#print axioms splice_sites_count
+#print axioms siteOf_geometry
+#print axioms siteOf_id
+#print axioms siteOf_noid
+#print axioms splice_sites_indexerror
+#print axioms splice_sites_nomerge
+#print axioms mem_sitesOfSide
+#print axioms intron_attrs_nomerge
+#print axioms introns_have_id
